@@ -562,7 +562,7 @@ func c09Scenarios() []*c09Scenario {
 func TestVerifC09(t *testing.T) {
 	out := vlib.Open("C09")
 	defer out.Close()
-	limit := vlib.Budget(12000, 400000) // schedules per scenario
+	limit := vlib.Budget(12000, 150000) // schedules per scenario (thorough: ~9 min; the two scenarios that exceed it continue with random schedules)
 	r := vlib.NewRand("C09")
 	if rp := vlib.Replay(); rp != "" {
 		b, err := os.ReadFile(rp)
